@@ -14,6 +14,7 @@ import (
 	"verif/props/c02"
 	"verif/props/core"
 	"verif/props/proto"
+	"verif/simnet"
 )
 
 var ethertypes = []uint16{0x0800, 0x86dd, 0x0806, 0x8100, 0x0008}
@@ -330,6 +331,27 @@ var onOff = &proto.Family{ID: "C12", Gen: func(tier string) []proto.Item {
 		}
 		it.Class = "filters-on-vs-off/" + it.Class
 		out = append(out, it)
+	}
+	// SACK handshake: segments of the run's own connection carrying every flag byte other than SYN|ACK (a challenge ACK,
+	// a bare SYN of a simultaneous open, RST, FIN-ACK, ...) precede the genuine SYN-ACK; the SYN-ACK filter drops them,
+	// so the matcher must ignore them as well
+	for _, v := range proto.Variants {
+		if proto.Info(v).Kind != "sack" {
+			continue
+		}
+		args := []int{-1}
+		if tier == "thorough" {
+			for a := 0; a < 255; a++ {
+				args = append(args, a)
+			}
+		} else {
+			args = append(args, 0x10, 0x02, 0x04, 0x11) // ACK, SYN, RST, FIN|ACK alone (indices below 0x12 are the flag bytes themselves)
+		}
+		for _, a := range args {
+			s := proto.Scn{Variant: v, First: 1, Last: 4, Dest: 3, IPIDBase: 1200, EchoBase: 121, TimeoutMs: 300, DelayMs: 10}
+			s.SynAck = &simnet.SynAckSpec{Enabled: true, ISN: 0x4000, AckNum: 0x9000, SackPermitted: true, NoiseKind: "tcp-flags", NoiseArg: a}
+			out = append(out, proto.Item{Scn: s, Class: fmt.Sprintf("filters-on-vs-off/%s/handshake/own-flow-segment-with-other-flags", v)})
+		}
 	}
 	return out
 }}
